@@ -74,6 +74,7 @@ func runC16(c *Ctx) {
 	c16FilterAfterMap(c, "FILTER-AFTER-MAP")
 	c16BinaryBeforeBuiltin(c)
 	c16MigrateUseList(c)
+	c16DeletePaired(c)
 	if q := c.P.Pkg("private/bufpkg/bufconfig"); q != nil {
 		c16SectionsKept(c, q)
 	}
